@@ -38,6 +38,9 @@ structure SSI where
   events : List SSEvent := []
 deriving Repr
 
+/-- `StepSizeStrategy::new`: no call received yet -/
+def SSI.new : SSI := {}
+
 def SSI.update (s : SSI) (_ : AdaptOracle) : SSI := { events := .update :: s.events }
 def SSI.update_stepsize (s : SSI) (_ : AdaptOracle) (useBest : Bool) : SSI := { events := .updateStepsize useBest :: s.events }
 def SSI.update_estimator_late (s : SSI) (_ : AdaptOracle) : SSI := { events := .estLate :: s.events }
@@ -49,6 +52,9 @@ structure MMI where
   fg : List Nat := [1]
   bg : List Nat := [1]
 deriving Repr
+
+/-- `A::new`: both estimators empty (`init` adds the start point to both afterwards) -/
+def MMI.new : MMI := { fg := [], bg := [] }
 
 def MMI.background_count (m : MMI) : Nat := m.bg.length
 def MMI.update_estimators (m : MMI) (o : AdaptOracle) : MMI :=
